@@ -5,6 +5,7 @@ import (
 	"fmt"
 	"reflect"
 	"regexp"
+	"strings"
 	"testing"
 
 	ucfg "github.com/elastic/go-ucfg"
@@ -23,6 +24,8 @@ type Case struct {
 	T       *gen.TD `json:"t"`
 	V       *gen.TV `json:"v"`
 	PathSep bool    `json:"pathsep,omitempty"`
+	// Sep: the path separator used when PathSep is set ("" = "."); the dotted names of the type are written with it
+	Sep string `json:"sep,omitempty"`
 	VarExp  bool    `json:"varexp,omitempty"` // VarExp on: strings with '$' are not generated then
 	// AltTags: the fields carry a second tag set `alt:"..."` with other names (the same flags); the round trip is
 	// made under the default tag name and under ucfg.StructTag("alt"), in the order AltFirst says - the same Go
@@ -132,11 +135,34 @@ func hasDollar(tv *gen.TV) bool {
 	return false
 }
 
+func (c *Case) sep() string {
+	if c.Sep == "" {
+		return "."
+	}
+	return c.Sep
+}
+
+// respell writes the dotted names of the type with another separator.
+func respell(td *gen.TD, sep string) {
+	if td == nil {
+		return
+	}
+	respell(td.Elem, sep)
+	for i := range td.Fields {
+		td.Fields[i].Tag = strings.ReplaceAll(td.Fields[i].Tag, ".", sep)
+		respell(td.Fields[i].T, sep)
+	}
+}
+
 func genCase(t *rapid.T) Case {
 	c := Case{PathSep: rapid.Bool().Draw(t, "pathsep"), Share: rapid.IntRange(0, 2).Draw(t, "share") == 0}
+	if c.PathSep {
+		c.Sep = rapid.SampledFrom([]string{"", "", "/", ":", "--", "\u00b7"}).Draw(t, "sep")
+	}
 	cfg := &gen.TDCfg{
 		MaxFields: runlog.Pick(4, 5), Named: true, Inline: true, Ignore: true, EmptyTag: true, NumericTag: true,
-		Dotted:     c.PathSep,
+		// without a path separator a dotted name is a plain name like any other (one time in four)
+		Dotted:     c.PathSep || rapid.IntRange(0, 3).Draw(t, "plaindot") == 0,
 		PtrToArray: !runlog.IsOpen("D26"),
 		InlineMap:  true, // class of finding D22: always generated, discarded (and counted) in run while the finding is open
 	}
@@ -145,13 +171,25 @@ func genCase(t *rapid.T) Case {
 		// inline map next to named fields (class of finding D22)
 		c.T.Fields = append(c.T.Fields, gen.FD{Name: "IM", Inline: true, T: &gen.TD{Kind: "map", Elem: &gen.TD{Kind: "iface"}}})
 	}
+	if rapid.IntRange(0, 1).Draw(t, "relnames") == 1 {
+		// names of one namespace that are related but not identical, names used in several namespaces, names with
+		// special characters (names_test.go)
+		nsep := ""
+		if c.PathSep {
+			nsep = c.sep()
+		}
+		relateNames(t, c.T, nsep, cfg.PtrToArray)
+	}
+	if c.PathSep && c.sep() != "." {
+		respell(c.T, c.sep()) // (with a path separator no other name contains a dot)
+	}
 	c.V = gen.GenTV(t, cfg, c.T, false)
 	if rapid.IntRange(0, 2).Draw(t, "alttags") == 0 {
 		c.AltTags = true
 		c.AltFirst = rapid.Bool().Draw(t, "altfirst")
 		// (names are not swapped between fields when a dotted name leads into the namespace of a struct field:
 		// the swapped names would use one name for a value and for an object)
-		var f features
+		f := features{sep: c.sep()}
 		scan(c.T, 0, &f)
 		addAlt(c.T, rapid.Bool().Draw(t, "altswap") && !f.overlap)
 	}
@@ -165,6 +203,7 @@ type features struct {
 	ptr, slice, array, mapk, dur, re, named   bool
 	inlineMapNextToNamed, ptrToArray, nonZero bool
 	numericTag, overlap, uniName, embedded    bool
+	sep                                       string // the separator dotted names are written with
 }
 
 func scan(td *gen.TD, depth int, f *features) {
@@ -222,10 +261,8 @@ func scan(td *gen.TD, depth int, f *features) {
 			if len(fd.Tag) > 0 && fd.Tag[0] >= '0' && fd.Tag[0] <= '9' {
 				f.numericTag = true
 			}
-			for _, ch := range fd.Tag {
-				if ch == '.' {
-					f.dotted = true
-				}
+			if strings.Contains(fd.Tag, f.sep) {
+				f.dotted = true
 			}
 			scan(fd.T, depth+1, f)
 		}
@@ -303,12 +340,41 @@ func anyNonZero(v reflect.Value) bool {
 	return !v.IsZero()
 }
 
+// hasNilPtrField: some struct of the value has a nil pointer (or nil interface) field.
+func hasNilPtrField(v reflect.Value) bool {
+	v = gen.Exported(v)
+	switch v.Kind() {
+	case reflect.Ptr, reflect.Interface:
+		if v.IsNil() || v.Type() == gen.RegexpType {
+			return false
+		}
+		return hasNilPtrField(v.Elem())
+	case reflect.Slice, reflect.Array:
+		for i := 0; i < v.Len(); i++ {
+			if hasNilPtrField(v.Index(i)) {
+				return true
+			}
+		}
+	case reflect.Struct:
+		for i := 0; i < v.NumField(); i++ {
+			f := gen.Exported(v.Field(i))
+			if (f.Kind() == reflect.Ptr || f.Kind() == reflect.Interface) && f.IsNil() {
+				return true
+			}
+			if hasNilPtrField(f) {
+				return true
+			}
+		}
+	}
+	return false
+}
+
 func runCase(c Case, r *runlog.R) error {
 	var opts []ucfg.Option
 	if c.PathSep {
-		opts = append(opts, ucfg.PathSep("."))
+		opts = append(opts, ucfg.PathSep(c.sep()))
 	}
-	var f features
+	f := features{sep: c.sep()}
 	scan(c.T, 1, &f)
 	if f.inlineMapNextToNamed && runlog.IsOpen("D22") {
 		r.Excluded("D22")
@@ -361,6 +427,18 @@ func runCase(c Case, r *runlog.R) error {
 		}
 	}
 	r.ClassIf(c.AltTags, "second tag set (StructTag)")
+	nf := scanNames(c.T, c.PathSep, c.sep())
+	r.ClassIf(c.PathSep && c.sep() != ".", "path separator other than the dot")
+	r.ClassIf(nf.fold, "sibling names equal ignoring case")
+	r.ClassIf(nf.conf, "sibling names equal after a Unicode case mapping or normalisation only")
+	r.ClassIf(nf.trim, "sibling names equal after trimming white space")
+	r.ClassIf(nf.affix, "sibling name is a prefix or suffix of another")
+	r.ClassIf(nf.goName, "config name equal to the (lower-cased) Go name of a renamed sibling")
+	r.ClassIf(nf.reused, "config name of an enclosing struct used again in a nested struct")
+	r.ClassIf(nf.special, "config name with a character other than letters and digits")
+	r.ClassIf(nf.nonASCII, "non-ASCII config name")
+	r.ClassIf(nf.plainDot, "dotted name without a path separator (a plain name)")
+	r.ClassIf((nf.fold || nf.conf || nf.trim || nf.affix || nf.goName) && hasNilPtrField(want.Elem()), "related sibling names and a nil pointer field in the value")
 	tagged := f.inline || f.ignore || f.unexp || f.dotted || f.emptyTag || f.numericTag
 	r.ClassIf(f.numericTag, "numeric config name")
 	r.NonTrivialIf((f.levels >= 2 || tagged) && anyNonZero(want.Elem()))
@@ -387,7 +465,7 @@ func runCase(c Case, r *runlog.R) error {
 
 var subRT = runlog.Register(&runlog.Sub[Case]{
 	Name: "struct-roundtrip",
-	Rule: "random struct types (reflect.StructOf over all primitive kinds, Go field names incl. non-ASCII exported ones, named variants, durations, regexps, pointers, slices, arrays, string-keyed maps, nested, inline and embedded structs; tags: rename, rename to a number, dotted with PathSep (also leading 1-3 levels into the namespace of a struct field declared before or after it), inline, ignore, unexported, no name) with values biased to zero values, type extremes, NaN/-0/Inf, nil vs empty collections and strings with $ . , { }; Unpack(NewFrom(v)) into a zero value must equal v; a third of the types carry a second tag set and are round-tripped under the default tag name and under StructTag(alt) alternately in one process (nil == empty collection, regexps by source, pointer chains by pointee, ignored/unexported fields zero). Non-trivial: the type has >= 2 levels or a tag other than a plain rename, and the value has a non-zero leaf. Distinct: hash of (type, value, options).",
+	Rule: "random struct types (reflect.StructOf over all primitive kinds, Go field names incl. non-ASCII exported ones, named variants, durations, regexps, pointers, slices, arrays, string-keyed maps, nested, inline and embedded structs; tags: rename, rename to a number, rename to an option word, dotted with PathSep (separator . / : -- or U+00B7; also leading 1-3 levels into the namespace of a struct field declared before or after it) and, one time in four, dotted without PathSep (a plain name), inline, ignore, unexported, no name; in half of the types the otherwise unrelated names f<n> are rewritten per struct (names_test.go): a sibling gets a name RELATED to another field's name without being identical - upper-cased, title-cased, mixed case, the sibling's Go field name as written or lower-cased, the name plus/minus a one-character suffix or prefix, outer white space incl. NBSP and U+3000, pairs that only a Unicode case mapping or normalisation identifies (k/KELVIN SIGN, s/LONG S, i/I WITH DOT, I/DOTLESS I, NFC/NFD e-acute, ss/sharp s, dz digraph lower/title) - and one of the two is made a pointer half of the time (nil one time in three); or a field of a nested struct gets the name of a field of an enclosing struct (or of the field holding it); or a name gets characters with a meaning elsewhere ($ ${} {} : = [0] [] / # ~ * ? @ < > | ; ' - white space, zero-width space, and without PathSep also leading/trailing/double dots); a rewritten type in which one namespace (struct plus inlined structs) would hold one name twice is left as generated; fields that a dotted name leads into keep name and kind) with values biased to zero values, type extremes, NaN/-0/Inf, nil vs empty collections and strings with $ . , { }; Unpack(NewFrom(v)) into a zero value must equal v; a third of the types carry a second tag set and are round-tripped under the default tag name and under StructTag(alt) alternately in one process (nil == empty collection, regexps by source, pointer chains by pointee, ignored/unexported fields zero); two settings are the same setting only if their names are identical, so every field must come back with its own value (a nil pointer stays nil) whatever the names of its siblings and of enclosing structs are; NewFrom must not modify its argument. Non-trivial: the type has >= 2 levels or a tag other than a plain rename, and the value has a non-zero leaf. Distinct: hash of (type, value, options).",
 	Gen:  genCase,
 	Run:  runCase,
 })
